@@ -368,7 +368,7 @@ pub fn run(run: &Run, replay: Option<&Value>) {
     let probes = vec![
         AnyCase::C03(c03::Case { def: Def::full(), alg: "es256".into(), ..c03::Case::base("jpeg") }),
         AnyCase::C03(c03::Case { alg: "ps256".into(), mode: "sidecar".into(), ver: 1, ..c03::Case::base("png") }),
-        AnyCase::C15(c15::Case { real: true, fmt: "jpeg".into(), n: 1, co: 0, cl: 9, reserve_extra: 0, rich: true, alg: "ed25519".into(), pure: false }),
+        AnyCase::C15(c15::Case { real: true, fmt: "jpeg".into(), n: 1, co: 0, cl: 9, reserve_extra: 0, rich: true, alg: "ed25519".into(), pure: false, legacy: false, widths: vec![] }),
         AnyCase::C39(c39::Case { seed: "png".into(), state: "tampered".into(), rel: "componentOf".into(), mode: "chain2".into(), parent: "jpeg".into() }),
     ];
     for p in &probes {
